@@ -30,8 +30,9 @@ import (
 type c15Case struct {
 	World    chain.World `json:"world"`
 	Blocks   []BlockPlan `json:"blocks"`
-	Destruct []string    `json:"destruct"` // contracts that are able to self-destruct (all others must never disappear)
-	Targets  []string    `json:"targets"`  // routers and protected addresses: a tx sent there exercises a route
+	Destruct []string    `json:"destruct"`         // contracts that are able to self-destruct (all others must never disappear)
+	Targets  []string    `json:"targets"`          // routers and protected addresses: a tx sent there exercises a route
+	Victim   string      `json:"victim,omitempty"` // contract whose only self-destruct route is always rolled back
 }
 
 type c15Acct struct {
@@ -212,6 +213,34 @@ func genC15(t *rapid.T) c15Case {
 		w.Contracts = append(w.Contracts, c)
 		routers = append(routers, addr)
 	}
+	// a self-destruct that is rolled back: `victim` destroys itself only when asked to (call data 01), `middle` asks and
+	// then fails, `outer` ignores that failure and touches the victim again (plain call, payment, or as the beneficiary
+	// of another self-destruct). The victim never self-destructs effectively: it must keep its account, code and coins.
+	if rapid.Bool().Draw(t, "rolledback") {
+		// (addresses outside the pool the generated soup contracts call into: only `middle` ever sends the victim 01)
+		victim, middle, outer := "0xd15c000000000000000000000000000000000001", "0xd15c000000000000000000000000000000000002", "0xd15c000000000000000000000000000000000003"
+		cs.Victim = victim
+		ben := rapid.SampledFrom(append([]string{zeroAddr, chain.K(2).Addr.Hex()}, protected...)).Draw(t, "victimben")
+		vp := evmgen.Program{{Op: "ifcd", N: 1, Sub: []evmgen.Stmt{{Op: "selfdestruct", A: ben}}}, {Op: "stop"}}
+		if rapid.Bool().Draw(t, "victimstores") {
+			vp = append(evmgen.Program{{Op: "sinc", A: "3"}}, vp...)
+		}
+		w.Contracts = append(w.Contracts, chain.GenContract{Addr: victim, Code: evmgen.CompileHex(vp), Nonce: 1, Balance: rapid.SampledFrom([]string{"0", "1000"}).Draw(t, "victimbal")})
+		mp := evmgen.Program{{Op: "call", A: victim, B: "0", Data: "01"}, {Op: rapid.SampledFrom([]string{"revert", "revert", "invalid"}).Draw(t, "middleend")}}
+		w.Contracts = append(w.Contracts, chain.GenContract{Addr: middle, Code: evmgen.CompileHex(mp), Nonce: 1, Balance: "10"})
+		op := evmgen.Program{{Op: "call", A: middle, B: "0", N: 300000}}
+		switch rapid.IntRange(0, 2).Draw(t, "retouch") {
+		case 0:
+			op = append(op, evmgen.Stmt{Op: "call", A: victim, B: "0"})
+		case 1:
+			op = append(op, evmgen.Stmt{Op: "call", A: victim, B: "3"})
+		case 2:
+			op = append(op, evmgen.Stmt{Op: "create", B: "2", Data: evmgen.CompileHex(evmgen.Program{{Op: "selfdestruct", A: victim}})})
+		}
+		w.Contracts = append(w.Contracts, chain.GenContract{Addr: outer, Code: evmgen.CompileHex(op), Nonce: 1, Balance: "1000000"})
+		routers = append(routers, outer, outer)
+		protected = append(protected, victim)
+	}
 	cs.World = w
 	cs.Targets = append(append([]string{}, routers...), protected...)
 	for b, nb := 0, rapid.IntRange(1, 3).Draw(t, "nblocks"); b < nb; b++ {
@@ -243,6 +272,9 @@ func genC15(t *rapid.T) c15Case {
 			case 5:
 				p.From = 3 // possibly a vesting sender
 				p.Value = rapid.SampledFrom([]string{"0", "1000", "500000000000000000000000"}).Draw(t, "k3val")
+			}
+			if cs.Victim != "" && strings.EqualFold(p.To, cs.Victim) {
+				p.Data = "" // a direct call never asks the victim to self-destruct
 			}
 			bp.Txs = append(bp.Txs, p)
 		}
